@@ -29,6 +29,40 @@ EXPLANATION = (
 )
 
 
+def _corner(e):
+    """`matrix[-1][-1]`: the cell holding (minus) the phase-1 objective."""
+    return isinstance(e, ast.Subscript) and ast.unparse(e).replace(" ", "") == "matrix[-1][-1]"
+
+
+def _infeasible_threshold_scaled(ctx, p1, c1, inner, ret):
+    """The corner cell is what is left of the initial infeasibility after the pivots; its rounding error is
+    relative to that start value. The verdict `infeasible` has to be taken against a threshold that grows with
+    it: the comparison that guards the INFEASIBLE return mentions, besides the corner cell and eps, a local that
+    was read from the corner cell before the inner simplex run."""
+    inner_node = c1.node_of(inner)
+    scales = {}
+    for a in own_nodes(p1.node):
+        if isinstance(a, ast.Assign) and len(a.targets) == 1 and isinstance(a.targets[0], ast.Name) and any(_corner(x) for x in ast.walk(a.value)):
+            an = c1.node_of(a)
+            if an is not None and c1.dominates(an, inner_node):
+                scales[a.targets[0].id] = a
+    tests = []
+    for g in c1.guards(c1.node_of(ret)):
+        t = g.test.ast if g.test is not None else None
+        if t is not None and any(_corner(x) for x in ast.walk(t)):
+            tests.append(t)
+    ctx.require(bool(tests), "the INFEASIBLE return of _phase1 is no longer guarded by a test of matrix[-1][-1]")
+    stores = {}
+    for a in own_nodes(p1.node):
+        for x in ast.walk(a) if isinstance(a, (ast.Assign, ast.AugAssign, ast.For)) else ():
+            if isinstance(x, ast.Name) and isinstance(x.ctx, ast.Store):
+                stores[x.id] = stores.get(x.id, 0) + 1
+    used = {x.id for t in tests for x in ast.walk(t) if isinstance(x, ast.Name)}
+    ok = any(v in used and stores.get(v, 0) == 1 for v in scales)
+    ctx.ob("C03-O2", "R1 STATUS-GUARD", p1, "phase-1 INFEASIBLE threshold is scaled by the infeasibility the run started with (read from the corner cell before the inner run, written once)", ok,
+           f"test `{ast.unparse(tests[0])}` compares the corner cell with an absolute tolerance: the pivots leave a residue relative to the right-hand sides (about 1e-10 at 1e6), and a feasible LP with plain integer data such as solve_lp([1], [[-3]], [-786434]) is answered INFEASIBLE", node=ret)
+
+
 def run(ctx: Ctx):
     ctx.step(check_status_use)
     ctx.step(check_simplex_verdicts)
@@ -143,10 +177,11 @@ def check_simplex_verdicts(ctx: Ctx):
             n_inf += 1
             rn = c1.node_of(n)
             at = g1.guard_atoms(rn)
-            art = any("matrix[-1][-1] <" in a for a in at)
+            art = any(a.startswith("matrix[-1][-1]") and " < " in a for a in at)
             examined = any(svar in a for a in at)
             ctx.ob("C03-O2", "R1 STATUS-GUARD", p1, "phase-1 INFEASIBLE under 'artificial objective still positive'", art, f"guards {sorted(at)}", node=n)
             ctx.ob("C03-O2", "R2 BUDGET-EXIT", p1, "phase-1 INFEASIBLE not reachable from an iteration-limited inner run", examined, f"guards {sorted(at)} do not mention the inner status `{svar}`", node=n)
+            ctx.step(_infeasible_threshold_scaled, p1, c1, inner, n)
     ctx.floor("phase-1 INFEASIBLE returns", n_inf, 1)
     # _phase2: MAX_ITER only after the loop; OPTIMAL under 'no entering column'; UNBOUNDED under 'no leaving row'
     c2 = cfg_of(p2.node)
@@ -516,6 +551,28 @@ def _v_ratio_threshold(tree):
     M.replace_expr(g, lambda e: M.src_is(e, "matrix[i][enter] > eps"), M.expr("matrix[i][enter] > 0"))
 
 
+def _v_phase1_absolute_threshold(tree):
+    g = M.find_func(tree, "_phase1")
+    M.replace_expr(g, lambda e: M.src_is(e, "-eps * max(1.0, infeasibility)"), M.expr("-eps"))
+
+
+def _v_phase1_scale_read_after_run(tree):
+    g = M.find_func(tree, "_phase1")
+    scale = [s for s in g.body if isinstance(s, ast.Assign) and M.src_is(s.targets[0], "infeasibility")]
+    if not scale:
+        raise M.Skip("scale assignment not found")
+    g.body.remove(scale[0])
+    k = [i for i, s in enumerate(g.body) if isinstance(s, ast.If) and M.src_is(s.test, "status == Status.MAX_ITER")]
+    if not k:
+        raise M.Skip("MAX_ITER test not found")
+    g.body.insert(k[0] + 1, scale[0])
+
+
+def _t_phase1_relative_by_division(tree):
+    g = M.find_func(tree, "_phase1")
+    M.replace_expr(g, lambda e: isinstance(e, ast.Compare) and M.src_is(e, "matrix[-1][-1] < -eps * max(1.0, infeasibility)"), M.expr("matrix[-1][-1] / max(1.0, infeasibility) < -eps"))
+
+
 def _v_pivot_out_scan_short(tree):
     g = M.find_func(tree, "_phase1")
     M.replace_expr(g, lambda e: M.src_is(e, "range(n_cols - 1 - len(art_cols))"), M.expr("range(n_cols - 1 - m)"))
@@ -613,6 +670,9 @@ VARIANTS = [
     M.Variant("ratio test leaves the last constraint row out", SX, _v_ratio_rows_off_by_one, "C03-O7"),
     M.Variant("solve_lp answers UNBOUNDED from a column pre-check, before feasibility is known (seed C03-G)", SX, _v_unbounded_precheck, "C03-O1"),
     M.Variant("phase-1 pivot-out scans n_cols - 1 - m columns instead of all non-artificial ones (seed C03-E)", SX, _v_pivot_out_scan_short, "C03-O7"),
+    M.Variant("phase-1 infeasibility judged against the absolute eps (original defect)", SX, _v_phase1_absolute_threshold, "C03-O2"),
+    M.Variant("phase-1 scale read from the corner cell after the inner run, when it is (nearly) zero", SX, _v_phase1_scale_read_after_run, "C03-O2"),
+    M.Variant("twin: phase-1 residue divided by the scale instead of the tolerance multiplied", SX, _t_phase1_relative_by_division, None),
     M.Variant("twin: reformat", SX, _t_reformat, None),
     M.Variant("twin: reformat interior", IP, _t_reformat, None),
     M.Variant("twin: rename status locals", SX, _t_rename, None),
